@@ -16,7 +16,7 @@ type c08Case struct {
 	Tables [][]tblKV   `json:"tables"` // oldest first
 	Probes [][]byte    `json:"probes"`
 	Bounds [][2][]byte `json:"bounds"`
-	Rev bool `json:"rev,omitempty"` // tables, stack and merger use the reversed bytewise key order
+	Rev    bool        `json:"rev,omitempty"` // tables, stack and merger use the reversed bytewise key order
 	// observations
 	Gets      []getOut  `json:"gets"`
 	All       scanOut   `json:"all"`
